@@ -158,7 +158,8 @@ deriving Repr, Inhabited
 
 structure PkgG where
   parts : List Str := []
-  badXml : List Str := []
+  /-- (part, where/why the XML parser rejected it) -/
+  badXml : List (Str × Str) := []
   defaults : List (Str × Str) := []
   overrides : List (Str × Str) := []
   /-- (relationships part, rel) -/
@@ -338,7 +339,7 @@ def checkCalc (g : PkgG) (wb : Str) : Option String :=
 /-- the named conjuncts of `WF`, in evaluation order -/
 def wfChecks : List (String × (PkgG → Option String)) := [
   ("zip-unique", fun g => (firstDup g.parts).map fun p => s!"duplicate zip entry {ls p}"),
-  ("xml-wellformed", fun g => g.badXml.head?.map fun p => s!"part {ls p} is not well-formed XML"),
+  ("xml-wellformed", fun g => g.badXml.head?.map fun p => s!"part {ls p.1} is not well-formed XML: {ls p.2}"),
   ("ct-present", fun g => if g.parts.contains ctName then none else some "no [Content_Types].xml"),
   ("ct-override-unique", fun g => (firstDup (g.overrides.map (·.1))).map fun p => s!"two Override elements for {ls p}"),
   ("ct-default-unique", fun g => (firstDup (g.defaults.map fun d => lower d.1)).map fun p => s!"two Default elements for extension {ls p}"),
